@@ -573,7 +573,7 @@ def nzs_rules(chk):
            derived="kind %s" % r_.ret.kind, loc=ch.loc(), inconclusive=deco or r_.ret.indef)
     te_ = [e for e in r_.I.events if e.kind in ("type-error", "index-error")]
     chk.ob("R-NZS-SIB", c + ":c_h_factor(one float period){types}", "no ill-typed operation or index past the end on the way", not te_,
-           derived="; ".join("%s %s" % (e.loc, e.what) for e in te_[:2]) or "none", loc=te_[0].loc if te_ else ch.loc())
+           derived="; ".join("%s %s" % (e.loc, e.what) for e in te_[:2]) or "none", loc=te_[0].loc if te_ else ch.loc(), inconclusive=deco and bool(te_))
     T2 = Poly.atom("T") * Poly.atom("T")
     ren = lambda a: re.sub(r"\b(tt|period)\b", "T", a)
     for cls in sorted(set(tch) & set(tsd)):
